@@ -1,19 +1,17 @@
-"""Per-property configuration of the driver: sharding, minimum coverage that a
-run must observe (otherwise inconclusive), the non-triviality rule printed in
-the evidence, tolerances and assumptions."""
+"""Collects the per-property configuration modules driver/propcfg/cNN.py.
 
-PROPS = {
-    "C19": {
-        "rule": "random histories (50-400 operations: Insert/Delete/Clone/Iterator/IteratorFrom/iterator Clone/Next/FindNode/FindNodeLE) over dense "
-                "universes of 4-64 keys, sparse extreme keys and iterator-stress histories aimed at the iterator's current element, plus the exhaustive "
-                "enumeration of all histories of length L over {ins k, del k, next} with 4 keys and one live iterator; after EVERY operation: return value, "
-                "membership of every universe key, BST order, parent links, stored balance = height difference in {-1,0,1}, no reachable deleted node, full "
-                "ascending iteration, every live iterator at the model successor. non-trivial = history with >=1 structural mutation followed by >=1 read "
-                "(Next/Find) (exhaustive groups count once per group of 2000 histories); distinct by universe+history hash",
-        "min_cov": {"hook:avl.rotateLL": 100, "hook:avl.rotateLR": 100, "hook:avl.rotateRR": 100, "hook:avl.rotateRL": 100,
-                    "hook:avl.delete.twoChildren": 100, "hook:avl.delete.leaf": 100, "hook:avl.delete.leftOnly": 100, "hook:avl.delete.rightOnly": 100,
-                    "next-after-delete-of-current": 100, "exhaustive-histories": 1000},
-        "assumptions": ["iterator semantics: Next moves to the successor, in the current set, of the value last returned (validated against the unchanged tree)",
-                        "exported AvlNode fields (Left/Right/Parent/Balance/Deleted) are read directly by the structural invariant walker"],
-    },
-}
+Each module defines
+  CFG  : dict for the driver — "rule" (how cases are generated and what makes one non-trivial/distinct; printed in the evidence), optional
+         "min_cov" {counter: minimum} (a run below it is INCONCLUSIVE), "oracle" (module name under driver/oracles with judge(files, opts)),
+         "race" (also run the -race worker), "hang_is_violation", "shards", "parallel", "mem_gb", "gomaxprocs", "tolerances", "assumptions"
+  META : dict for MANIFEST.json — "text", "design_ref", "note", "technique"
+"""
+import importlib, os, pkgutil
+PROPS, META = {}, {}
+_d = os.path.join(os.path.dirname(os.path.abspath(__file__)), "propcfg")
+for _f in sorted(os.listdir(_d)):
+    if _f.startswith("c") and _f.endswith(".py"):
+        _m = importlib.import_module("propcfg." + _f[:-3])
+        _id = _f[:-3].upper()
+        PROPS[_id] = _m.CFG
+        META[_id] = _m.META
